@@ -55,6 +55,8 @@ pub struct Cx {
     pub digest: u64,
     /// when true, panics are *expected to be recorded as failures* (default)
     pub strict: bool,
+    /// fuzz targets: do not catch panics of the code under test (the fuzzer reports the crash itself)
+    pub passthrough_panics: bool,
 }
 
 impl Cx {
@@ -122,6 +124,9 @@ impl Cx {
     }
     /// Call into the code under test; a panic is recorded as a failure and `None` returned.
     pub fn call<T>(&mut self, f: impl FnOnce() -> T) -> Option<T> {
+        if self.passthrough_panics {
+            return Some(f());
+        }
         match panics::catch(f) {
             Ok(v) => Some(v),
             Err(p) => {
@@ -180,6 +185,10 @@ pub trait Prop: 'static {
     fn run(case: &Self::Case, cx: &mut Cx);
     /// extra shrink candidates for failures found outside proptest (enumerated / crash cases)
     fn shrink(_case: &Self::Case) -> Vec<Self::Case> {
+        Vec::new()
+    }
+    /// valid inputs for the seed corpus of a byte-level fuzzer (C05, C11)
+    fn corpus(_seed: u64) -> Vec<Vec<u8>> {
         Vec::new()
     }
 }
